@@ -95,6 +95,24 @@ def check_one(run, s: str, multiline: bool, engine: str) -> bool:
                           engine=engine, key='not-inverse-chunked')
             return False
     run.count('chunked_deliveries', 2)
+    # the token un-read and read again through the tokenizer's own look-ahead interface (push_back / peek), as the parsers
+    # built on it do: still the one STRING token with value s - also when s is the empty string
+    from srctools.tokenizer import Tokenizer as _Tk
+    try:
+        tk2 = _Tk(quoted, allow_escapes=True)
+        first = tk2()
+        tk2.push_back(*first)
+        peeked = tk2.peek()
+        again = tk2()
+        rest = tk2()
+    except Exception as exc:
+        run.violation(f'push_back/peek of the STRING token raised {exc!r}', witness={'escaped': esc}, case=case, engine=engine,
+                      key='lookahead-loses-token')
+        return False
+    if not (first == peeked == again) or again[0] is not Token.STRING or again[1] != s or rest[0] is not Token.EOF:
+        run.violation('the STRING token does not survive push_back / peek', witness={'first': [first[0].name, first[1]], 'again': [again[0].name, again[1]]},
+                      case=case, engine=engine, key='lookahead-loses-token')
+        return False
     # "with escapes enabled": the constructor keyword above, and the public attribute switched on before the first token
     from srctools.tokenizer import Tokenizer
     try:
